@@ -361,7 +361,7 @@ def check_transforms(chk, r, tmp, quick):
             t = c04.build(c)
             if c["cls"] == "composite":
                 # declared order of the parameters is not the alphabetical one, bounds are unequal
-                names = ["zeta", "alpha", "mu", "beta"][: c["d"]]
+                names = (["zeta", "alpha", "mu", "beta"] + [f"q{k}" for k in range(c["d"])])[: c["d"]]
                 bounds = {n: [float(a), float(b)] for n, a, b in zip(names, c["lo"], c["hi"])}
                 # the clipping margin is an OPTION of the saved object: the default, a wider one, none at all (`eps=None`: no clamping)
                 eps_opt = (1e-6, None, 1e-3, 1e-6)[i % 4] if c["bounded_kind"] == "logit" else 1e-6
